@@ -36,6 +36,9 @@ const LATTICE_STMTS = {
   tpl_of_sums: 'x = `${a + b}${b + c}`;',
   call_of_sum: 'x = a.concat(b + c);',
   bare_of_sum: 'x = aloneMethod(a + b);',
+  call_of_literal_plus_call: "x = a.concat('id=' + b.trim());",
+  tpl_of_literal_plus_call: "x = `-${'id=' + b.trim()}-`;",
+  call_of_call_plus_literal: "x = a.concat(b.trim() + '!', c);",
   tpl_without_substitution: 'y = `text`;'
 }
 const VERBOSITIES = [undefined, 'OFF', 'MANDATORY', 'INFORMATION', 'DEBUG', 'debug']
@@ -106,7 +109,10 @@ module.exports = mk({
     const m = resp.metrics
     if (!m) { v('no-metrics', 'none', 'result carries no metrics'); return }
     const verb = leaf.fam === 'perm' ? String(config.telemetryVerbosity === undefined ? 'INFORMATION' : config.telemetryVerbosity).toUpperCase() : 'DEBUG'
-    const hooks = a.erasure ? a.erasure.hooks.length : 0
+    // call sites counted on the raw content; the erasure's own inventory has to agree (a hook call that sits where
+    // the erasure does not look, e.g. inside the operand list of another hook, is a call site all the same)
+    const hooks = a.erasure ? Math.max(a.erasure.hooks.length, a.hookCallSites || 0) : 0
+    if (a.erasure && a.hookCallSites !== undefined && a.hookCallSites !== a.erasure.hooks.length) v('hook-call-outside-an-operation', a.hookCallSites > a.erasure.hooks.length ? 'more' : 'fewer', `${a.hookCallSites} _ddiast.<name>(…) call sites in the content, ${a.erasure.hooks.length} of them wrap an operation`)
     res.nontrivial = hooks > 0
     const file = leaf.file || '/p/app.js'
     if (m.file !== file) v('metrics-file', 'file', `metrics.file is ${JSON.stringify(m.file)} for a call with file ${JSON.stringify(file)}`)
